@@ -3,6 +3,7 @@ package ds
 import (
 	"fmt"
 	"math/rand"
+	"os"
 	"strings"
 	"testing"
 	"unicode"
@@ -221,7 +222,88 @@ func genC19Text(r *rand.Rand, maxPieces int) string {
 	return sb.String()
 }
 
+// periodic haystacks: a short multi-code-point unit repeated, with a partial unit in front and behind, and a needle
+// that is a window of 1.5..2.5 units — its byte-level occurrences overlap each other at aligned and misaligned offsets.
+var c19Units = []string{
+	"x\u0301", "q\u0323", "x\u0301\u0308", "x\u0301y", // base + non-composing mark(s)
+	"\u1100\u1100\u1161", "\u1100\u1161\u11a8\u11a8", // Hangul L L V / LVT T
+	"\U0001F469\u200d", "\U0001F469\u200d\U0001F469", "\U0001F44D\U0001F3FD", // ZWJ pieces, skin tone
+	"\r\n", "\n\r", "\u270c\ufe0f", "\u0915\u094d", "\u0915\u093f", "\u0600a",
+}
+
+func genC19Periodic(r *rand.Rand) (hay, needle string) {
+	var rs []rune
+	ulen := 1
+	if r.Intn(3) == 0 {
+		// regional indicators over a two-letter alphabet: pairing depends on parity
+		n := 4 + r.Intn(6)
+		for i := 0; i < n; i++ {
+			rs = append(rs, rune(0x1F1E6+r.Intn(2)))
+		}
+		if r.Intn(3) == 0 {
+			rs = append([]rune("a"), rs...)
+		}
+	} else {
+		u := []rune(c19Units[r.Intn(len(c19Units))])
+		ulen = len(u)
+		lead := u[r.Intn(len(u)+1):] // a rune-suffix of the unit (possibly empty or whole)
+		tail := u[:r.Intn(len(u)+1)] // a rune-prefix of the unit
+		rs = append(rs, lead...)
+		for k, n := 0, 2+r.Intn(4); k < n; k++ {
+			rs = append(rs, u...)
+		}
+		rs = append(rs, tail...)
+		if r.Intn(4) == 0 {
+			rs = append(rs, 'z')
+		}
+	}
+	hay = string(rs)
+	nr := []rune(norm.NFC.String(hay))
+	lo, hi := max(2, (3*ulen+1)/2), max(3, (5*ulen)/2)
+	wl := lo + r.Intn(hi-lo+1)
+	if wl > len(nr) {
+		wl = len(nr)
+	}
+	start := r.Intn(len(nr) - wl + 1)
+	return hay, string(nr[start : start+wl])
+}
+
+// c19OverlapClass reports whether the first cluster-aligned occurrence of the needle is overlapped by an earlier
+// (necessarily misaligned) byte-level occurrence: the situation in which a search must resume inside a rejected match.
+func c19OverlapClass(m, n strModel) bool {
+	if n.nfc == "" {
+		return false
+	}
+	i, _ := m.find(n.nfc, 0)
+	if i < 0 {
+		return false
+	}
+	pa := len(strings.Join(m.cl[:i], ""))
+	for p := max(0, pa-len(n.nfc)+1); p < pa; p++ {
+		if strings.HasPrefix(m.nfc[p:], n.nfc) {
+			return true
+		}
+	}
+	return false
+}
+
+var c19NeedleOps = []string{"index", "contains", "count", "split", "replaceAll"}
+
 func genC19Case(r *rand.Rand) c19Case {
+	if r.Intn(6) == 0 {
+		hay, needle := genC19Periodic(r)
+		c := c19Case{Hay: hay, Needle: needle, Repl: genC19Text(r, 1)}
+		for i, k := 0, 3+r.Intn(4); i < k; i++ {
+			if r.Intn(5) == 0 {
+				c.Ops = append(c.Ops, c19Ops[r.Intn(len(c19Ops))])
+			} else {
+				c.Ops = append(c.Ops, c19NeedleOps[r.Intn(len(c19NeedleOps))])
+			}
+		}
+		n := len(mkStrModel(hay).cl)
+		c.I, c.J = r.Intn(n+5)-2, r.Intn(n+5)-2
+		return c
+	}
 	hay := genC19Text(r, 8)
 	m := mkStrModel(hay)
 	var needle string
@@ -643,12 +725,17 @@ func (c *c19) run(cs c19Case) {
 	if h.Str != m.nfc {
 		c.rec.Violation(c.t, cs, "String value of %q is %q, NFC form is %q", cs.Hay, h.Str, m.nfc)
 	}
+	overlap := c19OverlapClass(m, nm)
 	for _, op := range cs.Ops {
 		want, errs := c19Expected(op, m, nm, rm, cs)
 		needleOp := op == "index" || op == "contains" || op == "count" || op == "split" || op == "replaceAll"
 		nt := multi || normalised
 		if needleOp {
 			nt = multi && touches
+			if overlap {
+				c.rec.Class("misaligned-rejected-then-overlapping-aligned")
+				c.rec.Class("misaligned-rejected-then-overlapping-aligned/" + op)
+			}
 		}
 		c.rec.Case(nt, op, cs.Hay, cs.Needle, cs.Repl, cs.I, cs.J)
 		c.rec.Class("op/" + op)
@@ -681,7 +768,7 @@ func (c *c19) run(cs c19Case) {
 func TestC19(t *testing.T) {
 	rec := evid.Start(t, "C19", "haystacks assembled from a pool (ASCII, combining marks incl. stacked/reordered and lone marks, precomposed/decomposed pairs, singleton decompositions, Hangul jamo/syllables, "+
 		"emoji ZWJ sequences, skin tones, lone ZWJ, regional-indicator runs, CR LF, variation selectors, Indic conjuncts, U+0130/sigma, prepend characters, hex-like text); needles: cluster-aligned substrings, "+
-		"rune-level (misaligned) fragments of the NFC and of the raw text, unrelated pool strings, the empty string; indices in range ±2. Each case applies a sequence of 3..7 operations to the *same* String values "+
+		"rune-level (misaligned) fragments of the NFC and of the raw text, unrelated pool strings, the empty string; 1 case in 6 is a periodic haystack (a short multi-code-point unit — base+mark, Hangul jamo, ZWJ pieces, CR LF, regional-indicator runs over two letters — repeated with partial units around it) with a needle spanning 1.5..2.5 units, so that byte-level occurrences overlap at aligned and misaligned offsets (class misaligned-rejected-then-overlapping-aligned); indices in range ±2. Each case applies a sequence of 3..7 operations to the *same* String values "+
 		"(mutable grapheme iterator / cached length) — length, s[i], slice, iteration, concat, ==/</<=/>/>=, index, contains, count, split, replaceAll, String.join, toLower, encodeHex/utf8, decodeHex, fromUTF8, fromCharacters — "+
 		"by direct calls on *interpreter.StringValue, and ~8% of the cases through a script on both engines. Oracle: the same operation over the []string of extended grapheme clusters (uniseg) of norm.NFC(text). "+
 		"Every returned String must be in NFC and report the model length. Non-trivial: the haystack has a multi-code-point cluster (or normalisation changed it) and, for needle operations, the needle shares a code point with such a cluster. "+
@@ -694,6 +781,20 @@ func TestC19(t *testing.T) {
 		}
 		c.run(cs)
 		return
+	}
+	// regression seeds: an aligned occurrence overlapping an earlier misaligned byte-level match
+	// (VERIF_C19_NOSEEDS=1 skips them: used in sensitivity experiments to show that the generator alone finds the defect)
+	seeds := [][2]string{
+		{"x\u0301x\u0301x", "x\u0301x"},
+		{"\U0001F1E7\U0001F1E6\U0001F1E6\U0001F1E6\U0001F1E7", "\U0001F1E6\U0001F1E6"},
+		{"\r\n\r\n\r", "\n\r"},
+	}
+	if os.Getenv("VERIF_C19_NOSEEDS") != "" {
+		seeds = nil
+	}
+	for _, sd := range seeds {
+		c.run(c19Case{Hay: sd[0], Needle: sd[1], Repl: "-", Ops: []string{"index", "contains", "count", "split", "replaceAll"}})
+		c.run(c19Case{Hay: sd[0], Needle: sd[1], Repl: "-", Ops: []string{"index", "count"}, Script: true})
 	}
 	r := evid.Rand(19)
 	n := evid.N(12_000, 250_000) // cases; each has 3..7 operations
@@ -713,7 +814,10 @@ func TestC19(t *testing.T) {
 	for _, op := range c19Ops {
 		need = append(need, "nontrivial/"+op)
 	}
-	need = append(need, "script/vm/ok", "script/interpreter/ok", "script/vm/user")
+	need = append(need, "script/vm/ok", "script/interpreter/ok", "script/vm/user", "misaligned-rejected-then-overlapping-aligned")
+	for _, op := range c19NeedleOps {
+		need = append(need, "misaligned-rejected-then-overlapping-aligned/"+op)
+	}
 	rec.RequireClasses(t, need...)
 }
 
